@@ -577,6 +577,17 @@ func c14Routers(c *cx) {
 			c.r.Check(id, ir, "IQ handler arguments", "P: the handler gets the parsed IQ and the payload's start element", cl.Pos(), okArgs, "")
 		}
 		c.r.Floor(id, "IQHandler lookups in iqRouter", len(ir.Calls("mux.ServeMux.IQHandler")), 1)
+		// an IQ without a payload is an empty stanza: result AND error IQs may
+		// be empty and go to their type wildcard (get/set without payload are
+		// refused); the lookup is reached with io.EOF exactly for these two
+		for _, cl := range ir.Calls("mux.ServeMux.IQHandler") {
+			pt, _ := g.Where(cl)
+			okd, why := g.DominatedAny(pt, []string{
+				"or(and(eq(*#1,var:io.EOF) & or(eq(*.Type,stanza.ErrorIQ) | eq(*.Type,stanza.ResultIQ))) | eq(*#1,nil))",
+				"or(eq(*#1,nil) | and(eq(*#1,var:io.EOF) & or(eq(*.Type,stanza.ErrorIQ) | eq(*.Type,stanza.ResultIQ))))",
+			})
+			c.r.Check(id, ir, "empty IQs that reach the lookup", "G: the handler lookup is reached after a successful read of the payload start, or at the end of an empty result or error IQ (both kinds may come without a payload and go to the type wildcard)", cl.Pos(), okd, why)
+		}
 	}
 	fc := c.fn(id, "mux", "forChildren")
 	if fc != nil {
@@ -594,7 +605,7 @@ func c14Routers(c *cx) {
 				empty := a1 == "encoding/xml.Name{}"
 				c.r.Check(id, fc, "lookup for "+k.typ, "P: handlers are chosen by the stanza's own type and the child's name (the zero name for an empty stanza)", cl.Pos(), strings.HasSuffix(a0, ".Type") && (perChild || empty), "arguments are "+a0+", "+a1)
 				if empty {
-					c.dom(id, fc, cl, "empty-stanza lookup", []string{"eq(builtin.len(*.buf),2)", "istype(p1;" + k.typ + ")"})
+					c.dom(id, fc, cl, "empty-stanza lookup", []string{"istype(p1;" + k.typ + ")"})
 				} else {
 					c.dom(id, fc, cl, "per-child lookup", []string{"!eq(*Iter.Current[*]()#0,nil)", "istype(p1;" + k.typ + ")"})
 					// converse: nothing else decides whether a child is dispatched
@@ -603,6 +614,34 @@ func c14Routers(c *cx) {
 			}
 		}
 		c.r.Floor(id, "handler lookups in forChildren", n, 4)
+		// every stanza reaches a handler lookup: a stanza without child
+		// elements (no children at all, or only white space between the tags of
+		// formatted XML) goes to the type wildcard. For each stanza kind, every
+		// non-error return passes a lookup of that kind.
+		for _, k := range []struct{ lookup, typ string }{
+			{"mux.ServeMux.PresenceHandler", "stanza.Presence"},
+			{"mux.ServeMux.MessageHandler", "stanza.Message"},
+		} {
+			cut := g.CutFor("istype(p1;" + k.typ + ")")
+			isLookup := func(q eng.Point, nd ast.Node) bool {
+				return fc.ContainsCall(nd, "mux.ServeMux.PresenceHandler") != nil || fc.ContainsCall(nd, "mux.ServeMux.MessageHandler") != nil
+			}
+			for _, rs := range g.Returns {
+				rp, _ := g.Where(rs)
+				if g.RetKindOf(rs) == eng.RetError || !g.Reachable(g.Entry(), rp, cut, nil) {
+					continue
+				}
+				// returns that hand on the iterator's or a handler's error are not "nobody was asked"
+				if len(rs.Results) == 1 {
+					if _, isCall := ast.Unparen(rs.Results[0]).(*ast.CallExpr); isCall {
+						if fc.ContainsCall(rs, k.lookup) == nil && fc.ContainsCall(rs, strings.Replace(k.lookup, "ServeMux.", "", 1)+".Handle"+strings.TrimPrefix(k.typ, "stanza.")) == nil {
+							continue
+						}
+					}
+				}
+				c.r.Check(id, fc, "every "+k.typ+" reaches a handler lookup", "O: no non-error return of forChildren is reached without a handler lookup (per child, or the zero name for a stanza without child elements)", rs.Pos(), g.MustPassBefore(g.Entry(), rp, isLookup, cut), "a stanza can be processed without any handler being looked up (e.g. one that holds only white space: it has no child element, yet the empty-stanza arm is not taken)")
+			}
+		}
 		// replay readers
 		nb := 0
 		for _, cl := range fc.WalkLits("mux.bufReader") {
@@ -654,10 +693,21 @@ func c14Routers(c *cx) {
 		c.r.Check(id, fc, "buffer starts with the stanza start", "K: the stanza's start element is the first buffered token", fc.Pos(), okStart, "no r.buf = append(r.buf, *start)")
 		// offset reset for the empty-stanza arm
 		for _, w := range fc.FieldWrites("mux.bufReader.offset") {
-			pt, _ := g.Where(w.Stmt)
+			_ = g
 			v, _ := fc.ConstInt(w.RHS)
-			okd, _ := g.Dominated(pt, "eq(builtin.len(*.buf),2)")
-			c.r.Check(id, fc, "replay from the start for the type wildcard", "K: the wildcard handler of an empty stanza replays from offset zero", w.Stmt.Pos(), v == 0 && okd, "")
+			// ... on every path into the empty-stanza lookups
+			okd := true
+			for _, lk := range []string{"mux.ServeMux.PresenceHandler", "mux.ServeMux.MessageHandler"} {
+				for _, cl := range fc.Calls(lk) {
+					if len(cl.Args) == 2 && fc.Norm(cl.Args[1], nil) == "encoding/xml.Name{}" {
+						lp, _ := g.Where(cl)
+						if !g.MustPassBefore(g.Entry(), lp, func(q eng.Point, nd ast.Node) bool { return nd == ast.Node(w.Stmt) }, nil) {
+							okd = false
+						}
+					}
+				}
+			}
+			c.r.Check(id, fc, "replay from the start for the type wildcard", "K: the wildcard handler of an empty stanza replays from offset zero (the reset precedes every empty-stanza lookup)", w.Stmt.Pos(), v == 0 && okd, "")
 		}
 	}
 	// bufReader.Token: buffered tokens are copies; replay before live
